@@ -5,8 +5,8 @@ import worldrun
 from fw import g_bool, g_list, g_nats, g_opt, g_str
 
 UNIT = 'zope.testrunner.layer.UnitTests'
-HOUT = {'ok': 'HOk', 'raise': 'HRaise', 'notimpl': 'HNotImpl'}
-PO = {'ok': 'Pok', 'fail': 'Pfail', 'error': 'Perr', 'skip': 'Pskip', 'exit': 'Perr', 'raise': 'Perr', 'die': 'Pok'}
+HOUT = {'ok': 'HOk', 'raise': 'HRaise', 'notimpl': 'HNotImpl', 'raise_unhashable': 'HRaise'}
+PO = {'ok': 'Pok', 'fail': 'Pfail', 'error': 'Perr', 'skip': 'Pskip', 'exit': 'Perr', 'raise': 'Perr', 'die': 'Pok', 'error_unhashable': 'Perr'}
 
 
 def po(x):
@@ -159,9 +159,9 @@ def gen_layers(rng, n, p_hook=0.8, faults=True):
         bases = rng.sample(cand, k)
         hooks = {}
         if rng.random() < p_hook:
-            hooks['setUp'] = rng.choice([['ok']] * 8 + ([['raise'], ['ok', 'raise'], ['raise', 'ok']] if faults else []))
+            hooks['setUp'] = rng.choice([['ok']] * 8 + ([['raise'], ['ok', 'raise'], ['raise', 'ok'], ['raise_unhashable']] if faults else []))
         if rng.random() < p_hook:
-            hooks['tearDown'] = rng.choice([['ok']] * 7 + ([['raise'], ['notimpl'], ['notimpl'], ['notimpl', 'ok']] if faults else []))
+            hooks['tearDown'] = rng.choice([['ok']] * 7 + ([['raise'], ['notimpl'], ['notimpl'], ['notimpl', 'ok'], ['raise_unhashable']] if faults else []))
         if rng.random() < 0.6:
             hooks['testSetUp'] = ['ok']
         if rng.random() < 0.6:
@@ -191,7 +191,7 @@ def gen_test(rng, nlayers, rich=True):
     if rng.random() < 0.3:
         T['subs'] = [rng.choice(['ok', 'ok', 'fail', 'error', 'skip']) for _ in range(rng.randint(1, 3))]
     if rng.random() < 0.4:
-        T['body'] = rng.choice(OUTS_BAD + ['exit'])
+        T['body'] = rng.choice(OUTS_BAD + ['exit', 'error_unhashable'])
     if rng.random() < 0.2:
         T['tearDown'] = rng.choice(OUTS_BAD)
     if rng.random() < 0.2:
